@@ -488,3 +488,75 @@ Proof.
   rewrite map2_combine in Hv. apply in_map_iff in Hv as [[k tc] [<- _]].
   unfold vscale, class_grad. rewrite !map_length, seq_length. reflexivity.
 Qed.
+
+(* ---------- the statements of Props/C01.v, with the reference definitions spelled out ---------- *)
+Open Scope Qc_scope.
+
+Lemma smoothgrad_correct :
+  forall (grad : sample -> sample -> sample) k r bs nb xs ts noises,
+    shape_preserving grad -> kind_ok k -> bs_ok bs -> (1 <= nb)%nat -> noises_ok nb (rows xs ts noises) ->
+    (forall x, In x xs -> length x = kind_size k) ->
+    gradstat grad k r SMean bs nb xs ts noises
+    = map (fun row : row => let '(x, t, es) := row in
+             spec_reduce k r (map (fun j => qsum (map (fun e => nthq (grad (vadd x e) t) j) es) / qn (length es))
+                                  (seq 0 (length x))))
+          (combine (combine xs ts) noises).
+Proof.
+  intros grad k r bs nb xs ts noises Hg Hk Hb Hnb Hok Hx.
+  rewrite (gradstat_correct grad k r SMean bs nb xs ts noises Hg Hk Hb Hnb ltac:(discriminate) Hok Hx).
+  apply map_ext. intros [[x t] es]. cbn [rx rt rn fst snd]. f_equal. apply map_ext. intro j.
+  cbn [stat_of]. unfold smean, component, noisy_grads. rewrite !map_map, !map_length. reflexivity.
+Qed.
+
+Lemma squaregrad_correct :
+  forall (grad : sample -> sample -> sample) k r bs nb xs ts noises,
+    shape_preserving grad -> kind_ok k -> bs_ok bs -> (1 <= nb)%nat -> noises_ok nb (rows xs ts noises) ->
+    (forall x, In x xs -> length x = kind_size k) ->
+    gradstat grad k r SSquare bs nb xs ts noises
+    = map (fun row : row => let '(x, t, es) := row in
+             spec_reduce k r (map (fun j => qsum (map (fun e => nthq (grad (vadd x e) t) j * nthq (grad (vadd x e) t) j) es)
+                                            / qn (length es))
+                                  (seq 0 (length x))))
+          (combine (combine xs ts) noises).
+Proof.
+  intros grad k r bs nb xs ts noises Hg Hk Hb Hnb Hok Hx.
+  rewrite (gradstat_correct grad k r SSquare bs nb xs ts noises Hg Hk Hb Hnb ltac:(discriminate) Hok Hx).
+  apply map_ext. intros [[x t] es]. cbn [rx rt rn fst snd]. f_equal. apply map_ext. intro j.
+  cbn [stat_of]. unfold ssqmean, component, noisy_grads, sq. rewrite !map_map, !map_length. reflexivity.
+Qed.
+
+Lemma vargrad_correct :
+  forall (grad : sample -> sample -> sample) k r bs nb xs ts noises,
+    shape_preserving grad -> kind_ok k -> bs_ok bs -> (2 <= nb)%nat -> noises_ok nb (rows xs ts noises) ->
+    (forall x, In x xs -> length x = kind_size k) ->
+    gradstat grad k r SVar bs nb xs ts noises
+    = map (fun row : row => let '(x, t, es) := row in
+             spec_reduce k r (map (fun j =>
+                 let g := map (fun e => nthq (grad (vadd x e) t) j) es in
+                 let mean := qsum g / qn (length g) in
+                 qsum (map (fun v => (v - mean) * (v - mean)) g) / qn (length g - 1))
+               (seq 0 (length x))))
+          (combine (combine xs ts) noises).
+Proof.
+  intros grad k r bs nb xs ts noises Hg Hk Hb Hnb Hok Hx.
+  rewrite (gradstat_correct grad k r SVar bs nb xs ts noises Hg Hk Hb ltac:(lia) ltac:(intros _; exact Hnb) Hok Hx).
+  apply map_ext. intros [[x t] es]. cbn [rx rt rn fst snd]. f_equal. apply map_ext. intro j.
+  cbn [stat_of]. unfold suvar, smean, component, noisy_grads, sq. cbv zeta. rewrite !map_map. reflexivity.
+Qed.
+
+Lemma stat_queries_exact :
+  forall (grad : sample -> sample -> sample) bs nb xs ts noises,
+    bs_ok bs -> (1 <= nb)%nat -> (forall r, In r (rows xs ts noises) -> length (rn r) = nb) ->
+    gradstat_points grad bs nb xs ts noises = map (fun r => map (vadd (rx r)) (rn r)) (rows xs ts noises)
+    /\ Forall (fun p => length p = nb) (gradstat_points grad bs nb xs ts noises).
+Proof. intros; split; [apply gradstat_points_correct | apply gradstat_points_count]; assumption. Qed.
+
+Lemma batch_invariant :
+  forall (grad : sample -> sample -> sample) k r st bs bs' nb xs ts noises,
+    shape_preserving grad -> bs_ok bs -> bs_ok bs' -> (1 <= nb)%nat -> (st = SVar -> (2 <= nb)%nat) ->
+    noises_ok nb (rows xs ts noises) ->
+    saliency grad k r bs xs ts = saliency grad k r bs' xs ts /\
+    gradient_input grad k r bs xs ts = gradient_input grad k r bs' xs ts /\
+    gradstat grad k r st bs nb xs ts noises = gradstat grad k r st bs' nb xs ts noises.
+Proof. intros; repeat split; [apply saliency_batch_invariant | apply gradient_input_batch_invariant
+                             | apply gradstat_batch_invariant]; assumption. Qed.
